@@ -361,10 +361,13 @@ def _only_writer(m, K, mem, inst):
 def check_s4_s6(chk, m, K):
     fn, ps = fib.fn_paths(m, "fibre_scheduler_next")
     chk.note_fn(fn)
+    fib.validate_counters(chk, m, K)      # (a validated run-queue counter tested against 0 is an emptiness test: S12)
     yielded = K.enums.get("FIBRE_STATE_YIELDED")
     n_slow = n_fast = 0
     for p in ps:
-        names = [fib.callee_name(e) for k, e in fib.calls_on(p)]
+        # (the pop may be written out in place: list_extract(&kernel.runq) is what get_next_task does)
+        names = ["get_next_task" if (e.callee == "list_extract" and e.args and K.queue_arg(e.args[0]) == "runq") else fib.callee_name(e)
+                 for k, e in fib.calls_on(p)]
         pid = "fibre_scheduler_next " + "->".join(b.lstrip("%") for b in p.blocks)
         key = [x for x in names if x in ("handle_atomic_runq", "update_current_state", "handle_timerq", "get_next_task", "<indirect>")]
         if "get_next_task" in names:
@@ -562,6 +565,33 @@ def check_s7(chk, m, K):
                 if ok:
                     v = a.value.inst if a.value is not None else None
                     ok = v is not None and v.op == "call" and v.callee == "get_next_task"
+                    if not ok and a.value is not None:
+                        # the pop written out in place: NULL, or the fibre containing list_extract(&kernel.runq)
+                        work, seen_, srcs = [a.value], set(), []
+                        while work and len(seen_) < 32:
+                            x = work.pop()
+                            if x.k != "inst" or x.inst is None:
+                                srcs.append("null" if x.is_null() else x.k)
+                                continue
+                            if x.name in seen_:
+                                continue
+                            seen_.add(x.name)
+                            d = x.inst
+                            if d.op in ("getelementptr", "bitcast"):
+                                work.append(d.ops[0])
+                            elif d.op == "select":
+                                work += [d.ops[1], d.ops[2]]
+                            elif d.op == "phi":
+                                work += [vv for vv, bb in d.incoming]
+                            elif d.op == "call" and d.callee == "list_extract":
+                                try:
+                                    qa = flow.resolve_ptr(d.args[0], m)
+                                    srcs.append("runq" if qa.root.k == "global" and qa.root.name == "kernel" and qa.off == K.members["runq"][0] else "otherq")
+                                except AnalysisError:
+                                    srcs.append("?")
+                            else:
+                                srcs.append(d.op)
+                        ok = "runq" in srcs and all(s_ in ("runq", "null") for s_ in srcs)
                 chk.ob("S7.current-writer", "%s stores kernel.current" % f.name, ok,
                        "kernel.current is set only in fibre_scheduler_next, from the popped run-queue head", a.inst.loc, f.name)
     chk.expect("S7", "stores to kernel.current", n, 1)
